@@ -3,7 +3,7 @@ import itertools
 import os
 import random
 
-from vmon import ambient, attach, gen, runner
+from vmon import ambient, attach, gen, refmodel, runner
 
 RULE = ("EXHAUSTIVE over: 8 bin types x threshold lists of length 1-3 in increasing/equal/decreasing order x every "
         "order relation a value can have to the thresholds (below, equal, between, equal, above) plus NaN and +-inf, "
@@ -30,6 +30,7 @@ def plan(tier, seed):
     shards += [{"part": "cli", "seed": seed, "tier": tier, "k": i} for i in range(ncli)]
     shards += [{"part": "qevents", "seed": seed, "tier": tier, "k": i} for i in range(ncli)]
     shards += [{"part": "ensevents", "seed": seed, "tier": tier, "k": i} for i in range(ncli)]
+    shards += [{"part": "fss", "seed": seed, "tier": tier, "k": i} for i in range(2)]
     shards += [{"part": "ambient", "seed": seed, "tier": tier, "k": i, "n": 150 if tier == "quick" else 1200}
                for i in range(4)]
     return shards
@@ -397,7 +398,66 @@ def run_ensemble_events(desc, ctx):
                 ctx.violation("ensemble-event-observed|%s" % b, "bin %s: observed event indicators differ" % b, {"bin": b})
 
 
+def run_fss_events(desc, ctx):
+    """The fractions skill score thresholds obs and fcst into events itself: an event and its complement (above / below=,
+    above= / below) give the same score at every scale, values equal to the threshold and missing values included, and the
+    score equals the neighbourhood / window reference evaluated with the documented event."""
+    from vmon.props import c04
+    rng = random.Random("C07-fss-%s-%s" % (desc["seed"], desc["k"]))
+    n = 6 if desc["tier"] == "quick" else 80
+    for ci in range(n):
+        ds = gen.make_dataset(rng, n_inputs=rng.choice([1, 2]), fmt="text", miss=0.0, sparse=0.0, same_dims=True, max_t=3, max_l=4,
+                              vrange=(0, 8), integerish=True, loc_pool=c04.FSS_LOCS, n_locs=rng.randint(5, 8),
+                              leadtime_pool=[0, 3, 6, 9, 12, 18, 24])
+        thr = rng.choice([2.0, 3.0, 4.0, 5.0])       # integer data: many values equal the threshold
+        times, leads, locs = refmodel.common_dims(ds)
+        # outages: a station silent over consecutive lead times, a run missing everywhere
+        for inp in ds["inputs"]:
+            for _o in range(rng.randint(0, 3)):
+                t0, s0 = rng.choice(times), rng.choice(locs)[0]
+                i0 = rng.randrange(len(leads))
+                for l in leads[i0:i0 + rng.randint(2, 3)]:
+                    inp["cells"][gen.ck(t0, l, s0)][rng.choice(["obs", "fcst"])] = None
+        d = os.path.join(ctx.workdir, "fss%d" % ci)
+        os.makedirs(d)
+        paths, _ = gen.materialize(ds, d, None)
+        F = len(ds["inputs"])
+        for axis in ("leadtime", "location"):
+            out = {}
+            for b in ("above", "below=", "above=", "below"):
+                o = runner.run_cli(paths + ["-m", "fss", "-r", gen.fnum(thr), "-b", b, "-x", axis, "-type", "csv"])
+                ctx.count("fss_event_runs")
+                if o.status == "ok":
+                    h, rows = runner.parse_csv(o.stdout)
+                    out[b] = {r[0]: r[len(h) - F:] for r in rows}
+                elif o.status == "crash":
+                    ctx.violation("fss-crash|%s@%s" % (o.exc_type, o.where), o.tb, {"ds": ds, "bin": b})
+            ctx.case("fss-events|%s" % axis, True, {"threshold": thr, "axis": axis})
+            for b1, b2 in (("above", "below="), ("above=", "below")):
+                if b1 in out and b2 in out:
+                    for key, vals in out[b1].items():
+                        for k in range(F):
+                            x, y = vals[k], out[b2].get(key, [None] * F)[k]
+                            ctx.count("fss_complement_checks")
+                            same = (x == y) or (x is not None and y is not None and x.lower() != "nan" and y.lower() != "nan"
+                                                and abs(float(x) - float(y)) <= 2e-6 + 5e-5 * abs(float(x)))      # (single precision inside)
+                            if not same:
+                                ctx.violation("fss-complement|%s" % axis, "-m fss -r %s -x %s scale %s input %d: -b %s gives %s, the complementary "
+                                              "event -b %s gives %s" % (thr, axis, key, k, b1, x, b2, y), {"ds": ds, "threshold": thr})
+            if "above" in out and axis == "leadtime":
+                for key, vals in out["above"].items():
+                    for k in range(F):
+                        want = c04.ref_fss_temporal(ds, k, thr, float(key))
+                        got = vals[k]
+                        ok = (got.lower() == "nan") if want != want else (got.lower() != "nan" and abs(float(got) - want) < 1e-5 * max(1.0, abs(want)))
+                        if not ok:
+                            ctx.violation("fss-event-reference|leadtime", "-m fss -r %s -b above scale %s input %d: %s, events x > %s over the "
+                                          "valid cases give %r" % (thr, key, k, got, thr, want), {"ds": ds, "threshold": thr})
+
+
 def run_shard(desc, ctx):
+    if desc["part"] == "fss":
+        return run_fss_events(desc, ctx)
     if desc["part"] == "ensevents":
         return run_ensemble_events(desc, ctx)
     if desc["part"] == "qevents":
